@@ -1460,6 +1460,30 @@ def mask_chunks(n, size):
     return [(a, min(total, a + size)) for a in range(0, total, size)]
 
 
+def chk_search_many_iterations(res):
+    """clique.search with far more iterations than the interpreter's recursion limit, default answer at every random pick:
+    every labelled graph on <= 3 nodes, every clique seed, node_select uniform / degree"""
+    iters = 3000
+    for n in (1, 2, 3):
+        for mask in range(1 << (n * (n - 1) // 2)):
+            gc = GC(n, mask, 0)
+            for S in gc.subsets():
+                if not is_clique_ref(gc, S):
+                    continue
+                for sel in ("uniform", "degree"):
+                    res.n += 1
+                    res.nt += 1
+                    case = {"kind": "search_many", "g": gc.spec, "seed": srt(S), "sel": sel}
+                    for answers, draws, out in runs(lambda: cq.search(list(srt(S)), gc.G, iters, node_select=sel), only=[], menu=menu_identity):
+                        if out[0] == "exc":
+                            res.violation(f"C19|search|raises|{type(out[1]).__name__}|many-iterations", f"clique.search({srt(S)}, {gc.desc}, iterations={iters}, node_select={sel!r}) raised {type(out[1]).__name__} (with {iters // 4} iterations it returns a clique)", case)
+                        else:
+                            R = as_nodes(gc, out[1])
+                            if R is None or not is_clique_ref(gc, R):
+                                res.violation("C19|search|not-a-clique|many-iterations", f"clique.search({srt(S)}, {gc.desc}, iterations={iters}) returned {out[1]!r}", case)
+    return res
+
+
 def run(ctx):
     quick = ctx.tier == "quick"
     wall = max(WALL[ctx.tier], ctx.budget)  # the run-wide budget (VERIF_BUDGET_S) governs; WALL is the floor of the first build
@@ -1565,6 +1589,7 @@ def run(ctx):
                 ctx.cap_hit(f"time budget hit in phase '{name}' after {done}/{len(tasks)} work units")
                 break
         timing[name] = round(ctx.elapsed() - t0, 1)
+    ctx.add(chk_search_many_iterations(Res()))
     for sig in sorted(best):
         ctx.violation(sig, best[sig][1], best[sig][2], count=0)
     ctx.samples.extend(list(picked.values())[:6])
@@ -1604,6 +1629,9 @@ def replay(case):
     res = Res()
     k = case["kind"]
     only = case.get("answers")
+    if k == "search_many":
+        r = chk_search_many_iterations(Res())
+        return [(s_, w) for s_, w, c in r.viol if c["g"] == case["g"] and c["seed"] == case["seed"] and c["sel"] == case["sel"]]
     if k == "orbits":
         chk_orbits(res, case["n"])
     elif k == "orbit_cardinality":
